@@ -315,6 +315,17 @@ def r4(ctx, F, sc, conf):
             else:
                 why = why or 'gate key is the rolling digest: %s; lookup uses the same table and key: %s; lookup only behind the gate: %s' % (dig, same, guarded)
         ok = ok and paired
+    # the converse: a window that passes the gate IS looked up.  A path from the gate's true edge to the next iteration that passes
+    # no lookup dismisses a candidate window unconfirmed (a memo of earlier rejections, a budget): whether the dismissed windows
+    # could have matched is a statement about values - not decided, but not a silent pass either
+    heads_ = set(cfg.loops().keys())
+    lookup_blocks = [lb for lb, _ in sc.lookups]
+    for gb, gt in sc.gates:
+        for (s_, t_, lab) in fl.outcomes(gb).get('true', set()):
+            r_ = cfg.reach(t_, cut_blocks=lookup_blocks)
+            if (r_ & heads_ & set(sc.body_blocks)) or (sc.head in r_):
+                ctx.undecided('C16.R4', '%s: a window whose weak checksum is in the table can reach the next window without the strong lookup (a remembered rejection / an early exit): that such windows never match is not decided' % tag)
+                break
     ctx.check(ok, 'C16.R4', '%s:gate-and-lookup-agree' % tag, 'has_weak_match(w) and find_match(w, ..) on the same table with the rolling digest w',
               'the weak gate and the confirming lookup do not query the same table with the same key (%s)' % why, term_loc(b, sc.head))
     # has_weak_match / find_match read the same map; find_match examines all candidates
